@@ -130,6 +130,22 @@ func checkC06(c *Ctx) {
 			_, ln := c.pos(res.escape)
 			c.Violation("PATH", pk, call.Pos(), fmt.Sprintf("after removing tips, RemoveTips returns success (line %d) without any call that reaches UpdateTipIndex: ExistsTip/TipNode/TipIndex and the bitset width still describe the old tip set", ln)).Clause = "afterwards look-ups of tips by name reflect the new tip set"
 		}
+		// and the bitsets / hashes / depths of the branches (ReinitInternalIndexes or a function reaching it)
+		isReinit := func(fn *types.Func) bool {
+			return isRepoFunc(fn, "tree", "Tree", "ReinitInternalIndexes") || isRepoFunc(fn, "tree", "Tree", "ReinitIndexes")
+		}
+		res2 := mustPass(g, call.Pos(), func(m ast.Node) bool {
+			return containsCall(info, m, func(cl *ast.CallExpr, fn *types.Func) bool {
+				return fn != nil && inRepo(fn) && fn != rt.Obj && c.reaches(fn, isReinit, 4, map[*types.Func]bool{})
+			})
+		}, func(ret *ast.ReturnStmt) bool { return returnsNilError(info, ret) })
+		pk2 := fmt.Sprintf("tree.Tree.RemoveTips/removeTip→ReinitInternalIndexes#%d", i+1)
+		if res2.ok {
+			c.OK("PATH", pk2, call.Pos(), "every successful exit after a removal recomputes the bitsets of the branches")
+		} else {
+			_, ln := c.pos(res2.escape)
+			c.Violation("PATH", pk2, call.Pos(), fmt.Sprintf("after removing tips, RemoveTips can return success (line %d) without recomputing the bitsets, hashes and depths of the branches: the surviving branches keep bitsets of the old width and the branches created by the removal have none", ln)).Clause = "the splits of the result are exactly the restrictions of the original splits"
+		}
 	}
 	// merge forms in removeTip
 	c.mergeForms(rt, "tree.Tree.removeTip", false)
@@ -206,6 +222,10 @@ func checkC06(c *Ctx) {
 		c.Control("SCANNER-ERR", nv == 1, "fixture.C06ScanNoErr loops on Scan() without Err() (and C06ScanErr, which checks it, is accepted)")
 	}
 	c.checkPair("PAIR", map[string]bool{"removeTip": true})
+	c.Decides("REVISIT: after removeTip has moved up a chain of emptied single-child nodes, every successful path tests the node it stopped at for having exactly two neighbours left (the suppression of the degree-2 node applies to that node too)")
+	if c.revisitAfterMove("REVISIT", rt, "no inner node of degree two left behind") == 0 {
+		c.Undecided("REVISIT", "tree.Tree.removeTip", rt.Decl.Pos(), "no re-assignment of a node local inside a loop found in removeTip (the walk up the emptied chain was the instance confirmed by hand)")
+	}
 	c.Decides("NO-BREAK: the list-file readers behind `prune -f` (parseTipsFile, parseStringFile, Readln) have no loop that is left by a break: every name of the file is kept")
 	for _, n := range []string{"parseTipsFile", "parseStringFile"} {
 		if fi := c.Func("cmd", "", n); fi != nil {
@@ -216,6 +236,10 @@ func checkC06(c *Ctx) {
 	c.Decides("LASTLINE: the list-file readers shared by the commands (cmd/root.go, io/fileutils, io/utils) do not read lines with bufio ReadString/ReadBytes unless they handle io.EOF themselves: these return the last unterminated line together with io.EOF, which the `for err == nil` line loops never look at")
 	c.lastLineIn("its tip set is exactly the requested one", "cmd/prune.go")
 	c.Floor("PAIR", 4)
+	c.Decides("CMD-REACHES: in the prune command nothing between the head of the loop over the input trees and the first call of RemoveTips leaves the iteration except under an error test")
+	c.cmdReaches("CMD-REACHES", "cmd/prune.go", []string{"RemoveTips"}, "removes exactly the requested tips")
+	c.Floor("CMD-REACHES", 1)
+	c.Floor("REVISIT", 1)
 	c.Floor("GF", 2)
 	c.Floor("PATH", 1)
 	c.Floor("LF", 2)
